@@ -363,6 +363,16 @@ class Sym:
     def _cmp(self, o, f):
         if isinstance(o, NonFinite):
             return False
+        if isinstance(o, float) or _is_np_number(o):
+            try:
+                fo = float(o)
+            except (TypeError, ValueError):
+                fo = 0.0
+            if fo != fo:                       # IEEE: every ordered comparison and == with NaN is False (!= handled in __ne__)
+                return False
+            if fo in (float('inf'), float('-inf')):
+                big = z3.RealVal(1) if fo > 0 else z3.RealVal(-1)
+                return bool(z3.is_true(z3.simplify(f(z3.RealVal(0), big))))
         try:
             ot = lift(o)
         except TypeError:
@@ -382,6 +392,8 @@ class Sym:
         return False if r is NotImplemented else r
 
     def __ne__(self, o):
+        if isinstance(o, float) and o != o:
+            return True
         r = self._cmp(o, lambda a, b: a != b)
         return True if r is NotImplemented else r
 
@@ -393,7 +405,16 @@ class Sym:
         raise HarnessError("float() reached C level on a symbolic number: a shim is missing")
 
     def __int__(self):
-        raise HarnessError("int() on a symbolic number")
+        """int(x): truncation toward zero; the (small) integer result is found by forking over the feasible values"""
+        env = cur()
+        if getattr(env, 'mode', 'sym') != 'sym':
+            raise HarnessError("int() on a symbolic number outside a symbolic run")
+        t = self.t
+        tr = t if t.sort() == z3.IntSort() else z3.If(t >= 0, z3.ToInt(t), -z3.ToInt(-t))
+        for c in list(range(0, 33)) + list(range(-1, -9, -1)):
+            if env.branch(tr == c):
+                return c
+        raise HarnessError("int() of a symbolic number outside the modelled range -8..32")
 
     def __index__(self):
         return cur().concretize_index(self)
